@@ -195,4 +195,21 @@ def c_threads(cex, obs):
     return False, 'native threads: the cached entry was not replaced'
 
 
-CONFIRM = {'threads': c_threads, 'rope': c_rope, 'tree': c_tree, 'decode': c_decode, 'decode_bytes': c_decode, 'decoder_step': c_decode, 'roundtrip': c_roundtrip, 'lines_only': c_lines_only, 'vlq': c_vlq}
+def c_eqhash(cex, obs):
+    rel = cex.get('relation', 'equal')
+    for prof, o in obs.items():
+        if o.get('panicked'): return True, '%s build panics: %s' % (prof, o.get('message'))
+        if rel == 'equal':
+            if not o['ab']: return True, '%s build: a == b is false for values built from the same ingredients (history %r)' % (prof, cex.get('history'))
+            if not o['ba']: return True, '%s build: b == a is false' % prof
+            if o['hash_a'] != o['hash_b']: return True, '%s build: equal values hash differently (%s vs %s) after history %r' % (prof, o['hash_a'], o['hash_b'], cex.get('history'))
+            if not o['clone_eq']: return True, '%s build: a clone is not equal to its original' % prof
+            if o['hash_clone'] != o['hash_a']: return True, '%s build: a clone hashes differently from its original' % prof
+            if o['source_clone'] != o['source_b']: return True, '%s build: clone(a).source() %r differs from b.source() %r' % (prof, o['source_clone'], o['source_b'])
+        else:
+            if o['ab'] or o['ba']: return True, '%s build: the two values compare equal although they are one edit apart' % prof
+            if o['hash_a'] == o['hash_b']: return True, '%s build: the two values have the same hash %s although they are one edit apart' % (prof, o['hash_a'])
+    return False, 'native equality / hashes are as required'
+
+
+CONFIRM = {'eqhash': c_eqhash, 'threads': c_threads, 'rope': c_rope, 'tree': c_tree, 'decode': c_decode, 'decode_bytes': c_decode, 'decoder_step': c_decode, 'roundtrip': c_roundtrip, 'lines_only': c_lines_only, 'vlq': c_vlq}
